@@ -116,6 +116,7 @@ def generate(ctx):
                "dtype": rng.choice(["float64", "float64", "float32"]), "B": rng.randint(1, 4),
                # documented: how the per-sample adaptation updates are combined (default mean)
                "batch_reduction": rng.choice([None, None, "sum", "amax", "mean"]),
+               "built_dt": rng.choice([None, None, 1.0, 0.25, 2.0]),
                "shape": list(rng.choice([(3,), (2, 2), (1,), (2, 1, 2), (5,)])), "seed": rng.randrange(1 << 30),
                "steps": steps}
     # the adaptation update functions on their own (one of them is shipped without a neuron class that uses it): the
@@ -147,7 +148,9 @@ def _build(desc):
     kw = dict(desc["params"])
     if desc.get("batch_reduction") and (desc["cls"] in THRESH_ADAPT or desc["cls"] in CURR_ADAPT):
         kw["batch_reduction"] = {"sum": torch.sum, "amax": torch.amax, "mean": torch.mean}[desc["batch_reduction"]]
-    n = cls(tuple(desc["shape"]), desc["dt"], batch_size=desc["B"], **kw)
+    n = cls(tuple(desc["shape"]), desc.get("built_dt") or desc["dt"], batch_size=desc["B"], **kw)
+    if desc.get("built_dt") and desc["built_dt"] != desc["dt"]:
+        n.dt = desc["dt"]          # the step time reached through the documented setter after construction
     if desc["dtype"] == "float64":
         n.to(torch.float64)
     return n
@@ -257,6 +260,8 @@ def run_case(ctx, desc):
         n = _build(desc)
     except Exception as e:  # noqa: BLE001
         return ctx.violation(ctx.exc_signature(e, f"construct.{cls}"), f"{type(e).__name__}: {str(e)[:140]}", desc)
+    if desc.get("built_dt") and desc["built_dt"] != desc["dt"]:
+        ctx.count("trajectories_of_retimed_neurons")
     full = (desc["B"],) + tuple(desc["shape"])
     f64 = desc["dtype"] == "float64"
     tdt = torch.float64 if f64 else torch.float32
